@@ -21,9 +21,19 @@ from . import report
 from .ref import wire
 
 
-def _messages():
+def _as4(cfg):
+    """4-octet AS numbers on the sessions of this configuration: the peers of the scenario announce them whenever they announce anything,
+    the agent does when the option is on or its own AS needs it (RFC 6793)"""
+    return bool(cfg.get('four_bytes_as', True) or cfg.get('local_as', 65001) > 65535)
+
+
+def _messages(cfg=None):
     from .alphabet import session_messages
-    m = dict(session_messages(full=True, holds=(90, 3)))
+    cfg = cfg or {}
+    ra = cfg.get('remote_as', 65002)
+    m = dict(session_messages(full=True, holds=(90, 3), remote_as=ra))
+    from .alphabet import simple_update as _su
+    m['UPD'] = _su(ra if (_as4(cfg) or ra <= 65535) else 23456, as4=_as4(cfg))       # (AS_TRANS stands for a 4-octet AS in a 2-octet AS_PATH)
     m['@send_update'] = ('POST', '/v1/peer/<ip>/send/update',
                          {'attr': {'1': 0, '2': [[2, [65001]]], '3': '10.0.0.1', '16': ['route-target:65001:1', 'route-target:70000:1', 'route-origin:65001:1']},
                           'nlri': ['10.9.0.0/16']})
@@ -33,10 +43,10 @@ def _messages():
     m['@state'] = ('GET', '/v1/peer/<ip>/state', None)
     m['HALF'] = m['UPD'][:25]
     from .alphabet import simple_update
-    m['UPD_AS2'] = simple_update(65002, as4=False)
+    m['UPD_AS2'] = simple_update(ra if ra <= 65535 else 23456, as4=False)
     from .alphabet import peer_caps, PEER_ID
     # (... and lists an ADD-PATH capability for IPv6 in front of the others: the 4-octet-AS capability comes last)
-    m['OPEN_OK_ID2'] = wire.open_msg(65002, 90, PEER_ID + 0x01000000, [wire.cap_addpath([(2, 1, 3)])] + peer_caps())      # the peer changed its router id      # 2-octet AS_PATH: what a peer without the 4-octet capability sends
+    m['OPEN_OK_ID2'] = wire.open_msg(ra, 90, PEER_ID + 0x01000000, [wire.cap_addpath([(2, 1, 3)])] + peer_caps())      # the peer changed its router id      # 2-octet AS_PATH: what a peer without the 4-octet capability sends
     return m
 
 
@@ -72,7 +82,7 @@ SCENARIO_B = [('TICK', 0), ('CONN_OK', 0), ('RX', 0, 'OPEN_OK'), ('RX', 0, 'KA')
 
 
 def _trace(cfg, scenario=None):
-    m = _messages()
+    m = _messages(cfg)
     w = W.AgentWorld(cfg)
     out = []
     for ev in (scenario or SCENARIO):
@@ -144,6 +154,20 @@ def _run(cfg):
         if a[-1][2] != 'ESTABLISHED' or a[-6][2] == 'ESTABLISHED':
             v.append(('session-independence|after the late close of the previous connection the loss of the current session is not handled as a loss',
                       {'state_after_peer_close': a[-6][2], 'state_at_the_end': a[-1][2]}))
+        # absolute, not differential: in session 2 (both sides announced what this configuration makes them announce) the peer's UPDATE
+        # is decoded, and the AS_PATH the agent writes for a REST send has the width the two OPENs agreed on
+        if not any(e[0] == 'cb' and e[1] == 'update_received' for e in a[s2 + 4][1]):
+            v.append(('session-independence|the UPDATE of a peer that writes AS numbers in the width the two OPENs agreed on is not decoded',
+                      {'four_octet_as_numbers': _as4(cfg), 'observed': repr(a[s2 + 4][1])[:400]}))
+        for raw in a[6][3] or ():
+            try:
+                wd_, attrs_, nlri_ = wire.parse_update(bytes.fromhex(raw)[19:])
+                aspath = [x for x in attrs_ if x[1] == 2]
+                if aspath and len(aspath[0][2]) != 2 + (4 if _as4(cfg) else 2):
+                    v.append(('session-independence|the AS_PATH of a REST send is not written in the width the two OPENs agreed on',
+                              {'four_octet_as_numbers': _as4(cfg), 'as_path_value': aspath[0][2].hex()}))
+            except ValueError:
+                pass
         last_upd = a[SESSION4_UPD]
         if not any(e[0] == 'cb' and e[1] == 'update_received' for e in last_upd[1]):
             v.append(('session-independence|a peer that returns without the capabilities of the earlier sessions is still treated as having them',
@@ -157,7 +181,10 @@ def _run(cfg):
     return v, len(a) + len(b)
 
 
-CONFIGS = [{}, {'rib': True}, {'local_as': 4200000001, 'hold': 30}, {'debug_log': True}, {'gethost_fails': 1}, {'add_path': 'ipv4_both'}]
+CONFIGS = [{}, {'rib': True}, {'local_as': 4200000001, 'hold': 30}, {'debug_log': True}, {'gethost_fails': 1}, {'add_path': 'ipv4_both'},
+           # combinations of the 4-octet-AS switch with AS numbers that need four octets, on either side
+           {'local_as': 4200000001, 'four_bytes_as': False}, {'four_bytes_as': False}]
+# (a peer whose own AS needs four octets cannot take part in session 4, which is about a peer without any capability)
 
 
 def run(prop):
